@@ -2,6 +2,7 @@
 from __future__ import annotations
 
 import json
+import zlib
 import multiprocessing as mp
 import os
 import time
@@ -105,8 +106,12 @@ def _task(args):
         if n1 > lim:
             reduced = (name, kmax, 1, n1)
             kmax = 1
+    part, nparts = opts.get("part", (0, 1))
     for basept, c, j in values_for_root(vse, name, kmin, kmax):
-        key = hash(canon(j))
+        cj = canon(j)
+        if nparts > 1 and zlib.crc32(cj.encode("utf-8")) % nparts != part:
+            continue
+        key = hash(cj)
         if key in seen:
             continue
         seen.add(key)
@@ -153,11 +158,26 @@ def explore_roots(ctx, judge, roots, kmin, kmax, opts=None, big_first=None):
     impl.lsp()
     impl.converter()                   # resolve forward references once, before forking
     get_mm()
-    tasks = [(judge.__module__, judge.__name__, name, kmin, kmax, opts) for name in roots]
+    # big roots are split into parts (each part enumerates the root completely but judges only the values
+    # whose canonical form falls into its residue class), so one huge root does not serialise the run
+    tasks = []
+    sizes = {}
+    probe = VSE(get_mm())
+    for name in roots:
+        n1 = 0
+        for _ in probe.enum(ref(name), 1):
+            n1 += 1
+        sizes[name] = n1
+        nparts = 1
+        if max(kmin, kmax) >= 2 and n1 > 120:
+            nparts = 8 if n1 > 300 else 4
+        for part in range(nparts):
+            o = dict(opts)
+            o["part"] = (part, nparts)
+            tasks.append((judge.__module__, judge.__name__, name, kmin, kmax, o))
     rnd = random.Random(ctx.seed)
     rnd.shuffle(tasks)                 # seed only permutes work distribution
-    if big_first:
-        tasks.sort(key=lambda a: -big_first.get(a[2], 0))
+    tasks.sort(key=lambda a: -sizes.get(a[2], 0))      # big roots first
     agg = {"evals": 0, "values": 0, "distinct_nt": 0, "states": 0, "transitions": 0,
            "outcomes": {}, "samples": [], "capped": [], "roots": 0, "per_root_max": ("", 0), "slowest": [], "reduced": []}
     viols = []
@@ -167,10 +187,17 @@ def explore_roots(ctx, judge, roots, kmin, kmax, opts=None, big_first=None):
     else:
         results = [_task(t) for t in tasks]
     results.sort(key=lambda r: r["root"])
+    seen_roots = set()
     for r in results:
-        agg["roots"] += 1
-        for k in ("evals", "values", "distinct_nt", "states", "transitions"):
+        first_part = r["root"] not in seen_roots
+        seen_roots.add(r["root"])
+        if first_part:
+            agg["roots"] += 1
+        for k in ("evals", "values", "distinct_nt"):
             agg[k] += r[k]
+        if first_part:
+            for k in ("states", "transitions"):      # every part walks the same search tree: count it once
+                agg[k] += r[k]
         for oc, n in r["outcomes"].items():
             agg["outcomes"][oc] = agg["outcomes"].get(oc, 0) + n
         if r["capped"]:
